@@ -1134,3 +1134,32 @@ Proof.
   field. split; intro H; apply Hnz; rewrite H; ring.
 Qed.
 End HetPairConsistency.
+
+(* ====================================================================== *)
+(* a concrete 2-regular graph (triangle) for the non-vacuity examples      *)
+(* ====================================================================== *)
+Definition tri_adj (u : node) : list node :=
+  match u with N0 => [1%N; 2%N] | Npos xH => [0%N; 2%N] | Npos (xO xH) => [0%N; 1%N] | _ => [] end.
+Definition tri_graph : graph := mkGraph [0%N; 1%N; 2%N] tri_adj tri_adj false (fun _ _ => 1) (fun _ => 1) false false.
+Definition tri_nodes : list node := [0%N; 1%N; 2%N].
+Definition tri_idx (u : node) : nat := N.to_nat u.
+Definition tri_V (x y p q : Q) : vec :=
+  [x; x; x;  y; y; y;  0; p; p;  p; 0; p;  p; p; 0;  0; q; q;  q; 0; q;  q; q; 0].
+Definition tri_W (y p q : Q) : vec :=
+  [y; y; y;  0; p; p;  p; 0; p;  p; p; 0;  0; q; q;  q; 0; q;  q; q; 0].
+Lemma tri_regular : pb_regularb tri_graph tri_nodes tri_idx 2 = true /\ ib_regularb tri_graph tri_nodes tri_idx 2 = true.
+Proof. split; vm_compute; reflexivity. Qed.
+Lemma tri_uniform_SIR x y p q : pbSIR_uniform tri_graph tri_nodes (tri_V x y p q) x y p q.
+Proof.
+  split.
+  - intros k Hk. change (nN tri_nodes) with 3%nat in Hk. destruct k as [|[|[|k]]]; try lia; split; reflexivity.
+  - intros i j Hi Hj. change (nN tri_nodes) with 3%nat in Hi, Hj.
+    destruct i as [|[|[|i]]]; try lia; destruct j as [|[|[|j]]]; try lia; intros He; try discriminate He; split; reflexivity.
+Qed.
+Lemma tri_uniform_SIS y p q : pbSIS_uniform tri_graph tri_nodes (tri_W y p q) y p q.
+Proof.
+  split.
+  - intros k Hk. change (nN tri_nodes) with 3%nat in Hk. destruct k as [|[|[|k]]]; try lia; reflexivity.
+  - intros i j Hi Hj. change (nN tri_nodes) with 3%nat in Hi, Hj.
+    destruct i as [|[|[|i]]]; try lia; destruct j as [|[|[|j]]]; try lia; intros He; try discriminate He; split; reflexivity.
+Qed.
